@@ -74,6 +74,8 @@ type LoopCtx struct {
 	HeadEnv map[string]Val // names -> values at the head after havoc
 	EntryHeap map[int]Val
 	Havocked  *WriteLog
+	HeadHeapSnap map[int]Val
+	HeadGSnap    map[string]*Term
 }
 
 type Frame struct {
@@ -1064,6 +1066,9 @@ func (m *Machine) mapUpdate(mv, k, v Val) {
 		ns.M = append(ns.M, Store(arr, k.(*Term), leaves[i]))
 	}
 	m.Heap[mp.Cell] = ns
+	if m.W != nil {
+		m.W.Cells[mp.Cell] = true
+	}
 }
 
 func (m *Machine) lookup(mv, k Val, commaOk bool, typ types.Type) Val {
